@@ -10,7 +10,15 @@ from league import build_model, do_predict, result_values
 # ------------------------------------------------------------------ canonical state
 
 
+import weakref as _weakref
+
+_WEAK = (_weakref.WeakValueDictionary, _weakref.WeakKeyDictionary, _weakref.WeakSet, _weakref.ReferenceType)
+
+
 def _canon(v, depth, ids):
+    if isinstance(v, _WEAK):
+        # contents follow the garbage collector, not the calls: never compared
+        return ["weak", type(v).__name__]
     if v is None or isinstance(v, (bool, int, str, bytes)):
         return [type(v).__name__, v if not isinstance(v, bytes) else v.hex()]
     if isinstance(v, float):
@@ -18,9 +26,9 @@ def _canon(v, depth, ids):
     if isinstance(v, (list, tuple)):
         return [type(v).__name__, [_canon(x, depth + 1, ids) for x in v]]
     if isinstance(v, dict):
-        return ["dict", sorted(([repr(k), _canon(x, depth + 1, ids)] for k, x in v.items()), key=lambda z: z[0])]
+        return ["dict", sorted(([repr(k), _canon(x, depth + 1, ids)] for k, x in list(v.items())), key=lambda z: z[0])]
     if isinstance(v, (set, frozenset)):
-        return [type(v).__name__, sorted(repr(_canon(x, depth + 1, ids)) for x in v)]
+        return [type(v).__name__, sorted(repr(_canon(x, depth + 1, ids)) for x in list(v))]
     if isinstance(v, (types.FunctionType, types.BuiltinFunctionType, types.MethodType, type, types.ModuleType)):
         nm = getattr(v, "__qualname__", getattr(v, "__name__", "?"))
         out = ["obj", "%s.%s" % (getattr(v, "__module__", "?"), nm)]
